@@ -330,6 +330,7 @@ def judge(ctx, cases, traces):
 
 
 def run(ctx):
+    ctx.liveness("PinParse", unfair_control=not ctx.quick)      # termination under weak fairness (PinParse_live.cfg)
     q = ctx.quick
     # ---------------- (M) ----------------
     ctx.phase("model_checking")
